@@ -94,7 +94,7 @@ def run(chk):
                         'round trip of VALM holds only for values that %f prints exactly; cell lengths below 10000 (DCELL has no separators)']
     proved = chk.prove()
     h, d = F.harness(), F.driver()
-    n = 250 if quick else 6000
+    n = 1200 if quick else 12000
     reps = 1 if quick else 4
     found = {}
     for rep in range(reps):
